@@ -651,6 +651,11 @@ func loadBasicSegment(sloc *SegmentLoc) (Segment, error) {
 		}
 
 		buf = sloc.mref.buf[bufStart : bufStart+sloc.BufBytes]
+	} else {
+		// A segment whose only entry has an empty key and an empty (or
+		// no) value has no key-val bytes at all.  The buf must still
+		// be non-nil, as a nil val means "not found" to the readers.
+		buf = []byte{}
 	}
 
 	return &segment{
